@@ -17,6 +17,8 @@ NOT decided: "a zero window does not stay zero once everything is
 acknowledged" (needs the arithmetic fact min(1024, max//4) < max and an
 induction over acknowledgement histories).
 """
+import ast
+
 from .. import terms as T
 from . import common as cm
 from . import flow
@@ -220,3 +222,56 @@ def run(ctx, eng):
                'window and maximum track what was advertised: a local '
                'INITIAL_WINDOW_SIZE change reaches every stream, and the '
                'window arithmetic is exact (it may go negative)')
+    check_derived_caches(ctx, eng)
+
+
+def check_derived_caches(ctx, eng):
+    """The update algorithm may keep values derived from the window or its
+    maximum (thresholds, say) in attributes of the manager; then every place
+    that writes the source must refresh the derived value, or the algorithm
+    decides on stale numbers (a maximum lowered by a SETTINGS change and
+    thresholds of the old one: the window stays at zero for ever)."""
+    m = eng.m
+    cls = m.cls('windows.WindowManager')
+    base = {'max_window_size', 'current_window_size', '_bytes_processed'}
+    wm = frozenset(q for q, fi in m.funcs.items()
+                   if fi.cls == cls.qual and fi.name != '__repr__')
+    I = eng.interp(wm, depth=2, fork_raises=False)
+    derived = {}        # attr -> set of base fields it is computed from
+    for q in sorted(wm):
+        for p in cm.normal_paths(I.run(m.funcs[q])):
+            for e in p.events:
+                if e.kind != 'write' or e.attr in base or \
+                        e.base != ('p', 'self'):
+                    continue
+                rhs = getattr(e.node, 'value', None)
+                src = {n.attr for n in ast.walk(rhs)
+                       if isinstance(n, ast.Attribute) and n.attr in base
+                       and isinstance(n.value, ast.Name) and
+                       n.value.id == 'self'} if rhs is not None else set()
+                if src:
+                    derived.setdefault(e.attr, set()).update(src)
+    bad = []
+    n_sites = 0
+    for attr, srcs in sorted(derived.items()):
+        for b in sorted(srcs):
+            for wq in sorted(flow.attr_writers(eng, b)):
+                fi = m.funcs[wq]
+                for p in cm.normal_paths(I.run(fi)):
+                    ws = [e for e in p.events if e.kind == 'write' and
+                          e.attr == b]
+                    for w in ws:
+                        n_sites += 1
+                        later = [e for e in p.events[p.index(w):]
+                                 if e.kind == 'write' and e.attr == attr and
+                                 cm.show0(e.base) == cm.show0(w.base)]
+                        if not later:
+                            bad.append('%s writes %s.%s but leaves the '
+                                       'derived %s stale' % (
+                                           wq.split('.', 1)[1],
+                                           cm.show0(w.base), b, attr))
+    ctx.ob('COH.derived', cls.qual, 'derived values follow their source',
+           not bad, '; '.join(sorted(set(bad))) or (
+               '%d derived attribute(s) %s, refreshed at all %d writes of '
+               'their sources' % (len(derived), sorted(derived), n_sites)),
+           node=cls.node, nontrivial=bool(derived))
